@@ -1219,7 +1219,12 @@ class Exec:
             elif isinstance(t, ast.Name) and t.id in self.ctx.c.locals: v = lib.empty_of(self.ctx.c.locals[t.id])
             elif isinstance(t, ast.Attribute):
                 base = self.ev(t.value, st)
-                if isinstance(base, VRef): v = lib.empty_of(field_type(base.cls, t.attr)[0])
+                if isinstance(base, VRef):
+                    try: fty = field_type(base.cls, t.attr)[0]
+                    except ToolLimit:
+                        if not self.auto_field(base, t.attr, st): raise
+                        fty = field_type(base.cls, t.attr)[0]
+                    v = VAny(z3.FreshConst(AnySort, 'opaque')) if isinstance(fty, TAny) else lib.empty_of(fty)
                 else: raise ToolLimit('empty container store (line %s)' % t.lineno)
             elif isinstance(t, ast.Subscript): v = VAny(z3.FreshConst(AnySort, 'empty'))
             else: raise ToolLimit('empty container for undeclared local (line %s)' % t.lineno)
